@@ -99,5 +99,15 @@ theorem udp_size_default_src : udp_size_default = "cmp.Or(conf.UDPSize, dns.MinM
 /-- The non-writer keeps the last response written and hands that one out (`Agd.Serve.lastOr`). -/
 theorem nonwriter_res_src : nonwriter_res = "resp" := by decide
 theorem nonwriter_msg_src : nonwriter_msg = "r.res" := by decide
+/-- The DoQ read buffer: `dns.MaxMsgSize + 2` octets, length prefix and largest message (`Agd.Serve.quicBufSize`);
+`readAll` fills `buf[n:]`, stops with `io.ErrShortBuffer` when the buffer is full before a `Read`, adds
+what a `Read` returned before looking at its error, and turns `io.EOF` into nil (`Agd.Serve.readAll`). -/
+theorem quic_pool_size_src : quic_pool_size = "dns.MaxMsgSize + 2" := by decide
+theorem quic_buf_slice_src : quic_buf_slice = "buf[:quicBytePoolSize]" := by decide
+theorem quic_readall_args_src : quic_readall_args = "stream, buf" := by decide
+theorem readall_conds_src : readall_conds = "n == len(buf) | err != nil | err == io.EOF" := by decide
+theorem readall_returns_src : readall_returns = "n, io.ErrShortBuffer | n, err" := by decide
+theorem readall_read_args_src : readall_read_args = "buf[n:]" := by decide
+theorem readall_count_src : readall_count = "len,Read" := by decide
 
 end Agd.Tie.C01
